@@ -234,6 +234,8 @@ func c08(c *Ctx) {
 	rd.closeCodeTable("C08.codes", false, true)
 	rd.sticky("C08.sticky")
 	c08defaults(c, rd, "C08.defaults")
+	r.Rule("C08.read-buffer", "a control frame of any legal size (0..125 payload bytes) can be read: the Conn's bufio.Reader always holds at least maxControlFramePayloadSize bytes — newConn allocates at least that, and a reader handed to newConn by a caller (the hijacked one) is known to be that large on the path")
+	c08readBuffer(c, rd)
 	r.Rule("C08.reply-private", "the pong / close reply is assembled by WriteControl in memory private to the call: nothing reachable from the Conn is written before Conn.mu is held, so a concurrent WriteControl cannot overwrite the reply (same rule as C11.timeout-paths)")
 	newTransport(c).noSharedBeforeLock("C08.reply-private")
 }
@@ -417,5 +419,90 @@ func c08defaults(c *Ctx, rd *reader, rule string) {
 			}
 		})
 		r.Check(rule, shortFn(fcm), "status-code-encoding", fcm.Pos(), ok && n > 0, why)
+	}
+}
+
+// c08readBuffer: (*Conn).read(n) peeks n <= 125 bytes, which fails with
+// bufio.ErrBufferFull on a smaller reader: every reader a Conn can get must be
+// at least maxControlFramePayloadSize bytes.
+func c08readBuffer(c *Ctx, rd *reader) {
+	r := c.R
+	nc := c.fn("newConn")
+	max := c.P.ConstInt("maxControlFramePayloadSize")
+	ok, why := true, "newConn allocates bufio.NewReaderSize(conn, n) with n >= maxControlFramePayloadSize, or keeps the caller's reader"
+	n := 0
+	c.explore("C08.read-buffer", nc, core.Opts{}, func(p *core.Path) {
+		if p.End != core.EndReturn {
+			return
+		}
+		for i := range p.Events {
+			ev := &p.Events[i]
+			if ev.Kind != core.EvStore || !isFieldAddr(ev.Addr, rd.br) {
+				continue
+			}
+			n++
+			v := strip(ev.Val)
+			switch {
+			case v.Kind == core.KParam:
+			case v.Kind == core.KCall && len(v.Args) == 2:
+				f, isF := v.Ref.(*ssa.Function)
+				if !isF || extName(f) != "bufio.NewReaderSize" {
+					ok, why = false, "newConn installs a reader that is neither the caller's nor bufio.NewReaderSize(...): "+v.String()
+					break
+				}
+				if lo, has := p.X.Lower(v.Args[1]); !has || lo < max {
+					ok, why = false, "newConn allocates a read buffer ("+v.Args[1].String()+") not known to hold maxControlFramePayloadSize bytes: a large control frame cannot be peeked and the read fails with bufio.ErrBufferFull"
+				}
+			default:
+				ok, why = false, "newConn installs an unrecognised reader "+v.String()
+			}
+		}
+	})
+	r.Check("C08.read-buffer", shortFn(nc), "allocated-reader-holds-a-control-frame", nc.Pos(), ok && n > 0, why)
+	// callers that hand newConn a reader
+	for _, g := range c.P.FuncList {
+		if !callsDirectly(g, nc) {
+			continue
+		}
+		okC, whyC := true, "the reader handed to newConn is nil or known to hold maxControlFramePayloadSize bytes"
+		nCalls := 0
+		var site ssa.Instruction
+		for _, b := range g.Blocks {
+			for _, in := range b.Instrs {
+				if ci, isC := in.(ssa.CallInstruction); isC && ci.Common().StaticCallee() == nc {
+					site = in
+				}
+			}
+		}
+		o := core.Opts{NonNilOnNilErr: true, MaxPaths: 400000, Stop: func(x *core.Explorer, ev *core.Event) bool { return ev.Instr == site }}
+		if shortFn(g) == "(*Dialer).DialContext" {
+			if starts := c.acquireSites(g); len(starts) == 1 {
+				o.Start = starts[0]
+			}
+		}
+		o.Observe = func(x *core.Explorer, ev *core.Event) {
+			if ev.Instr != site || len(ev.Args) != 7 {
+				return
+			}
+			nCalls++
+			br := ev.Args[5]
+			if br.IsNil() {
+				return
+			}
+			// the path must have measured this reader: Size() result with a known lower bound
+			good := false
+			for _, pe := range x.Prefix() {
+				if pe.Kind == core.EvCall && pe.Static != nil && extName(pe.Static) == "(*bufio.Reader).Size" && len(pe.Args) == 1 && pe.Args[0] == br {
+					if lo, has := x.Lower(pe.Result); has && lo >= max {
+						good = true
+					}
+				}
+			}
+			if !good {
+				okC, whyC = false, shortFn(g)+" hands newConn the reader "+br.String()+" without knowing its size to be >= maxControlFramePayloadSize (a small hijacked reader cannot hold a 125-byte control frame)"
+			}
+		}
+		c.explore("C08.read-buffer", g, o, func(p *core.Path) {})
+		r.Check("C08.read-buffer", shortFn(g), "caller-reader-holds-a-control-frame", g.Pos(), okC && nCalls > 0, whyC)
 	}
 }
